@@ -15,7 +15,7 @@
    What stays cited: the lift from corresponding vector fields + corresponding initial points to coinciding curves
    (Picard-Lindeloef uniqueness), for the continuous-time models.  The discrete-time pair is an exact recurrence and
    is proved for every number of steps.  Not proved: the full (s,i) effective degree model (numerical only). *)
-From EoNV Require Import Prelude Graph Vec VecP Aux AuxP IC Wrappers ICP Pgf C07xPoly C07xHier C07xIC C07xPref C07xMf Rhs.
+From EoNV Require Import Prelude Graph Vec VecP Aux AuxP IC Wrappers ICP Pgf C07xPoly C07xHier C07xIC C07xPref C07xMf C07xCed C07xCedIC Rhs.
 
 (* ---------- the formal derivative is the derivative ---------- *)
 Theorem C07x_formal_derivative_is_derivative : forall (F : pmap) x h,
@@ -71,6 +71,19 @@ Theorem C07x_outputs_agree : forall c N tau g phiS0 phiR0 theta R,
   vnth 0 (Phi_sc c N tau g phiS0 phiR0 theta R) == theta /\ vnth 3 (Phi_sc c N tau g phiS0 phiR0 theta R) == R.
 Proof. exact outputs_agree. Qed.
 
+(* EBCM (theta, R) -> compact effective degree (S_kappa, R, SI):  S_kappa = N sum_k c_k C(k,kappa) u^kappa v^(k-kappa) with
+   u = theta - phi_R (a neighbour not yet recovered), v = phi_R; SI = N psihat'(theta) phi_I.  Every S_kappa is a polynomial in
+   theta (Pgf.ced_sum); the proof goes through the binomial moments sum_kappa S_kappa = N psihat(theta),
+   sum kappa S_kappa = N u psihat'(theta), sum kappa(kappa-1) S_kappa = N u^2 psihat''(theta) and the absorption identity
+   (kappa+1) C(k,kappa+1) = (k-kappa) C(k,kappa) for the scipy.ndimage.shift term.  u <> 0: the code divides by sum kappa S_kappa *)
+Theorem C07x_ebcm_to_compact_effective_degree : forall c t N tau g phiS0 phiR0 (ps psP : Q -> Q) theta, ~ theta == 0 -> forall R,
+  ps theta == peval c theta -> psP theta == D c theta -> psP 1 == D c 1 ->
+  ~ tau == 0 -> ~ N == 0 -> ~ peval (u_p tau g phiR0) theta == 0 -> ~ D c theta == 0 -> ~ D c 1 == 0 ->
+  let e := dEBCM [theta; R] t N tau g ps psP phiS0 phiR0 in
+  veq (dSIR_compact_effective_degree (Phi_ced c N tau g phiS0 phiR0 theta R) t N tau g)
+      (DPhi_ced c N tau g phiS0 phiR0 theta (vnth 0 e) (vnth 1 e)).
+Proof. exact ebcm_to_ced. Qed.
+
 (* ---------- the wrappers, rho path: closures and initial points ---------- *)
 (* psihat, psihatPrime, psihatDPrime as written in EBCM_from_graph / SIR_super_compact_pairwise_from_graph are the
    polynomial with coefficients (1-rho) P_k and its first and second formal derivatives *)
@@ -100,6 +113,15 @@ Theorem C07x_compact_from_graph_on_manifold : forall g rho_opt tau gam,
     veq (Sk0 ++ [SS0; SI0; R0]) (Phi_cp c (gN g) tau gam (fg_phiS0 r) fg_phiR0 1 0) /\
     I0 + R0 + vsum Sk0 == gN g.
 Proof. exact compact_fg_rho. Qed.
+(* SIR_compact_effective_degree_from_graph starts at Phi_ced(theta = 1, R = 0), with N = G.order() *)
+Theorem C07x_compact_effective_degree_from_graph_on_manifold : forall g rho_opt tau gam,
+  let r := rho_or_default g rho_opt in let c := fg_coeffs g r in
+  wf_ugraph g = true -> ~ D c 1 == 0 ->
+  exists Skappa0 I0 R0 SI0, (forall full sv,
+    SIR_compact_effective_degree_from_graph g (mkReq None None rho_opt) full sv = Ok (SIR_compact_effective_degree Skappa0 I0 R0 SI0 full sv)) /\
+    veq (Skappa0 ++ [R0; SI0]) (Phi_ced c (gN g) tau gam (fg_phiS0 r) fg_phiR0 1 0) /\
+    vsum Skappa0 + I0 + R0 == gN g.
+Proof. exact ced_fg_rho. Qed.
 (* the hierarchy identities with exactly the closures and constants the wrappers pass *)
 Theorem C07x_hierarchy_from_graph : forall g rho_opt t tau gam theta R,
   wf_ugraph g = true ->
@@ -173,6 +195,16 @@ Proof.
   cbv zeta. split; [intro H; vm_compute in H; discriminate|]. split; [|intro H; vm_compute in H; discriminate].
   apply veqb_sound. vm_compute. reflexivity.
 Qed.
+Example C07x_nonvacuous_ced :
+  ~ peval (u_p (1 # 2) 1 0) (3 # 4) == 0 /\
+  (let e := dEBCM [3 # 4; 3] 0 100 (1 # 2) 1 (peval ex_c) (peval (pderiv ex_c)) (9 # 10) 0 in
+   veq (dSIR_compact_effective_degree (Phi_ced ex_c 100 (1 # 2) 1 (9 # 10) 0 (3 # 4) 3) 0 100 (1 # 2) 1)
+       (DPhi_ced ex_c 100 (1 # 2) 1 (9 # 10) 0 (3 # 4) (vnth 0 e) (vnth 1 e)) /\
+   ~ vnth 1 (dSIR_compact_effective_degree (Phi_ced ex_c 100 (1 # 2) 1 (9 # 10) 0 (3 # 4) 3) 0 100 (1 # 2) 1) == 0).
+Proof.
+  split; [intro H; vm_compute in H; discriminate|]. cbv zeta. split; [|intro H; vm_compute in H; discriminate].
+  apply veqb_sound. vm_compute. reflexivity.
+Qed.
 (* the path 0-1-2 (degrees 1,2,1), rho = 1/4: a wf graph with psihat'(1) <> 0, so the initial-point theorems apply *)
 Example C07x_nonvacuous_graph :
   wf_ugraph path3 = true /\ ~ D (fg_coeffs path3 (1 # 4)) 1 == 0 /\
@@ -204,6 +236,9 @@ Print Assumptions C07x_super_compact_to_compact.
 Print Assumptions C07x_ebcm_to_super_compact.
 Print Assumptions C07x_ebcm_to_compact.
 Print Assumptions C07x_outputs_agree.
+Print Assumptions C07x_ebcm_to_compact_effective_degree.
+Print Assumptions C07x_compact_effective_degree_from_graph_on_manifold.
+Print Assumptions C07x_nonvacuous_ced.
 Print Assumptions C07x_wrapper_closures_are_polynomials.
 Print Assumptions C07x_EBCM_from_graph_rho.
 Print Assumptions C07x_super_compact_from_graph_on_manifold.
